@@ -674,7 +674,16 @@ class World:
             verdicts.append(v)
         sg = inp.signed
         now = self.ref_digest(idx, inp.algo(), sg["ht"])
-        expect = (now is not None and now == sg["digest"] and inp.spk == sg["spk"] and not sg["tampered"] and inp.annex == sg["annex"])
+        # the expected verdict is a function of the *current* state only: the reference's judgement of the current bytes
+        # (bookkeeping of what was signed when cannot know that an edit/revert put an older, still valid signature back)
+        try:
+            mtx, _ = tm.parse_tx(self.tx.serialize(), strict=False)
+            expect, _why = stdverify.verify_input(mtx, idx, self.spent())
+        except Exception:
+            expect = False
+        book = (now is not None and now == sg["digest"] and inp.spk == sg["spk"] and not sg["tampered"] and inp.annex == sg["annex"])
+        if book and not expect:
+            fail("C06", "H3", f"reference_and_bookkeeping_disagree_{inp.kind}", "harness: the signed state is unchanged per the bookkeeping but the reference finds the spend not authorised")
         tr.oracle("H3")
         tr.probe("verify_after_sign")
         tr.probe("verify_expect_" + str(expect))
